@@ -9,6 +9,8 @@ evaluated over all assignments of {NULL,-2,-1,0,1,2,3} to a, b.
 """
 from __future__ import annotations
 
+import json
+
 import itertools
 import sqlite3
 
@@ -30,8 +32,21 @@ LOGIC = ["AND", "OR", "XOR"]
 LEAVES = [["col", "a"], ["col", "b"], ["lit", 1], ["lit", -1], ["lit", 1.5], ["lit", "x"], ["null"], ["agg", "SUM", ["col", "a"]]]
 
 
+_SHARE = {"memo": None}
+
+
 def T(e):
-    """algebra -> library term via the public API"""
+    """algebra -> library term via the public API (with _SHARE["memo"] set: structurally equal sub-trees become one shared object)"""
+    memo = _SHARE["memo"]
+    if memo is None or not isinstance(e, list):
+        return _T_build(e)
+    k = json.dumps(e)
+    if k not in memo:
+        memo[k] = _T_build(e)
+    return memo[k]
+
+
+def _T_build(e):
     k = e[0]
     if k == "col":
         return Field(e[1])
@@ -336,6 +351,7 @@ def chunks(tier, seed):
     out += [{"kind": "logic3", "part": i, "of": 8} for i in range(8)]
     out += [{"kind": "spine3", "part": i, "of": 16} for i in range(16)]
     out += [{"kind": "critpos", "part": i, "of": 4} for i in range(4)]
+    out.append({"kind": "shared"})
     if tier == "thorough":
         out += [{"kind": "core2", "part": i, "of": 64} for i in range(64)]
     return out
@@ -364,6 +380,21 @@ def crit_pairs():
 
 def expand(chunk):
     k = chunk["kind"]
+    if k == "shared":
+        # one term object on both sides of an operator (x = a-b; x-x): same grouping as for two equal objects
+        inner = [["arith", "-", A_, B_], ["arith", "/", A_, B_], ["arith", "*", A_, B_], ["arith", "+", A_, B_], ["neg", A_], ["lit", -1],
+                 ["cmp", "=", A_, B_], ["logic", "OR", ["cmp", ">", A_, ONE], ["cmp", "<", B_, ONE]], ["not", ["cmp", "=", A_, B_]]]
+        for x in inner:
+            for op in ARITH:
+                yield {"e": ["arith", op, x, x], "shared": True}
+                yield {"e": ["arith", op, ["arith", op, x, x], x], "shared": True}
+            for op in ("=", "<"):
+                yield {"e": ["cmp", op, x, x], "shared": True}
+            for op in LOGIC:
+                if x[0] in ("cmp", "logic", "not"):
+                    yield {"e": ["logic", op, x, x], "shared": True}
+                    yield {"e": ["logic", op, x, ["not", x]], "shared": True}
+        return
     if k == "critpos":
         if "cp" not in _CACHE:
             _CACHE["cp"] = crit_pairs()
@@ -644,6 +675,16 @@ def run_critpos(case):
 def run_case(case):
     if "pos" in case:
         return run_critpos(case)
+    if case.get("shared"):
+        _SHARE["memo"] = {}
+        try:
+            return _run_case(case)
+        finally:
+            _SHARE["memo"] = None
+    return _run_case(case)
+
+
+def _run_case(case):
     res = Result()
     e = case["e"]
     try:
@@ -671,6 +712,18 @@ def run_case(case):
                 res.violate("C06|%s|%s" % (sg, dcls),
                             "rendered expression %s (dialect %s); minimal failing sub-tree %r" % (r[0], d, m),
                             tree=e, dialect=d, **r[1])
+    # the term as an output column (the top node is rendered with with_alias=True there): same text, it carries no alias
+    for d in fp.CTX:
+        if d in inline_bad:
+            continue
+        res.transitions += 1
+        if _SHARE["memo"] is not None:
+            _SHARE["memo"] = {}
+        sql_al = T(e).get_sql(fp.CTX[d].copy(with_alias=True))
+        if sql_al != fresh[d]:
+            res.violate("C06|output-column|%s" % parentcat(e), "the expression is grouped differently when it is rendered as an output column (with_alias=True)",
+                        tree=e, dialect=d, plain=fresh[d], as_output_column=sql_al)
+            break
     # parameterised rendering: placeholders are atoms; with the values put back the text must parse to the tree that was built
     def pfails_for(d):
         lexd = "sqlite" if d == "generic" else d
